@@ -29,7 +29,7 @@ ASSUMPTIONS = [
     "dedicated shard",
 ]
 GATES = {
-    "bilateral_clamped_by_image": 1, "optimisation_step_with_a_geometric_prior": 3, "step_gt_1_with_a_suffixed_matching_cost_and_a_filter": 2, "margin_parameter_left_to_its_default": 5, "bilateral_default_after_an_explicit_sigma_space": 2,
+    "bilateral_clamped_by_image": 1, "suffix_naming_another_step_kind": 5, "optimisation_step_with_a_geometric_prior": 3, "step_gt_1_with_a_suffixed_matching_cost_and_a_filter": 2, "margin_parameter_left_to_its_default": 5, "bilateral_default_after_an_explicit_sigma_space": 2,
     "noncumulative_dominates": 1,
     "cumulative_dominates": 1,
     "step_gt_1": 1,
@@ -251,7 +251,9 @@ def run_case(case, ctx):
     if work == "table":
         rng = ctx.rng("table", case["idx"], case["draw"])
         kinds = case["kinds"]
-        keys = pipes.keys_for(kinds, suffix_first=set(kinds) if case["draw"] == 1 else None)
+        keys = pipes.keys_for(kinds, suffix_first=set(kinds) if case["draw"] == 1 else None,
+                              style=["num", "kindname"][case["idx"] % 2])
+        ctx.gate("suffix_naming_another_step_kind", int(case["draw"] == 1 and case["idx"] % 2 == 1))
         shape = SHAPES[int(rng.integers(0, len(SHAPES)))]
         params = draw_params(rng, keys, shape)
         pipe = pipes.instantiate(keys, params=params)
@@ -301,7 +303,7 @@ def run_case(case, ctx):
         kinds = ["matching_cost"] + (["aggregation"] if rng.random() < 0.3 else []) + ["disparity"]
         kinds += [["filter", "refinement", "filter"][int(x)] for x in rng.integers(0, 3, int(rng.integers(0, 4)))]
         sfx = [None, set(kinds), {"matching_cost"}][case["i"] % 3]
-        keys = pipes.keys_for(kinds, suffix_first=sfx, style=["num", "alpha", "dotted", "word"][(case["i"] // 3) % 4])
+        keys = pipes.keys_for(kinds, suffix_first=sfx, style=["num", "alpha", "dotted", "word", "kindname"][(case["i"] // 3) % 5])
         shape = SHAPES[int(rng.integers(0, len(SHAPES)))]
         params = draw_params(rng, keys, shape)
         params[keys[0]]["step"] = step
